@@ -27,3 +27,9 @@ mod c03_owned;
 mod c10_result;
 #[cfg(kani)]
 mod c12_write;
+
+#[cfg(all(kani, test))]
+mod checking_alloc;
+#[cfg(all(kani, test))]
+#[global_allocator]
+static CHECKING_ALLOC: checking_alloc::CheckingAlloc = checking_alloc::CheckingAlloc;
